@@ -392,7 +392,8 @@ func Run(ctx *core.Ctx) {
 		ctx.Fatal("%v", err)
 	}
 	pops := []string{"none", "p30", "p300"}
-	perPop := ctx.Pick(4, 5)
+	// workers (servers) per population: the 300-hook population is the slow one
+	workersOf := map[string]int{"none": ctx.Pick(3, 4), "p30": ctx.Pick(3, 4), "p300": ctx.Pick(6, 8)}
 	shapes := []string{"rect", "circle", "poly"}
 	dsets := detectSets()
 	vs := variants()
@@ -402,7 +403,9 @@ func Run(ctx *core.Ctx) {
 	var wg sync.WaitGroup
 	var mu sync.Mutex
 	planned, done := 0, 0
+	widBase := 0
 	for pi, pop := range pops {
+		perPop := workersOf[pop]
 		// the scenario list of this population: the complete cross product, in a PRNG-determined order
 		var list []scenario
 		for _, sh := range shapes {
@@ -424,13 +427,13 @@ func Run(ctx *core.Ctx) {
 		}
 		planned += len(list)
 		for w := 0; w < perPop; w++ {
-			wid := pi*perPop + w
+			wid := widBase + w
 			var mine []scenario
 			for i := w; i < len(list); i += perPop {
 				mine = append(mine, list[i])
 			}
 			wg.Add(1)
-			go func(pop string, wid, w int, mine []scenario) {
+			go func(pop string, wid, w, perPop int, mine []scenario) {
 				defer wg.Done()
 				ss := newSess(ctx, bin, wid, pop)
 				defer ss.close()
@@ -460,8 +463,9 @@ func Run(ctx *core.Ctx) {
 					ss.walk(k, sites, hooks, ctx.Thorough() || k%2 == 0)
 				}
 				ctx.Count("chan_msgs_discarded_other_channels", ss.sub.Discarded)
-			}(pop, wid, w, mine)
+			}(pop, wid, w, perPop, mine)
 		}
+		widBase += perPop
 	}
 	wg.Wait()
 	ctx.Set("matrix_scenarios_planned", planned)
